@@ -3,4 +3,4 @@ package pow
 // Exported wrappers for the C12 check (no logic): the verifier-side threshold computation and comparison.
 
 func VerifC12TargetByDifficulty(difficulty uint64) [8]byte { return getTargetByDifficulty(difficulty) }
-func VerifC12GreaterDifficulty(x, y []byte) bool            { return greaterDifficulty(x, y) }
+func VerifC12GreaterDifficulty(x, y []byte) bool           { return greaterDifficulty(x, y) }
